@@ -8,7 +8,7 @@ ID = "C05"
 LEAN_MODULES = ["Econf.Props.C05"]
 THEOREMS = ["Econf.C05_step_inert", "Econf.C05_blank_inert", "Econf.C05_lines_inert", "Econf.C05_insert_comments"]
 RULE = ("conventional single-line-value documents x random insertion points x comment-line texts over the printable alphabet with "
-        "comment characters, delimiters, quotes and brackets over-represented, with and without indentation, the comment sets {#, ;, #;, default} and longer ones (4, 9, 11 characters with the usual ones last; a character named twice); the file "
+        "comment characters, delimiters, quotes and brackets over-represented, with and without indentation, the comment sets {#, ;, #;, default} and longer ones (4, 9, 11 characters with the usual ones last; sets without # or without ;; a character named twice); the file "
         "is read with and without the inserted lines (a fifth of the documents in python style, through an object created with PYTHON_STYLE=1 and the layered read) and the two results are compared; plus long files in which small comment blocks add up to 8 KiB ... 140 KiB (1 MiB thorough) (in a third of the scenarios after an earlier read with other comment characters in the same process); distinct by (document, inserted lines)")
 
 NASTY = [b"old=1 # disabled", b"# heading", b" c", b"[section]", b"[broken", b"key value", b"k=v", b'"quoted', b"=", b"]", b"a=b # c ; d",
@@ -16,6 +16,8 @@ NASTY = [b"old=1 # disabled", b"# heading", b" c", b"[section]", b"[broken", b"k
 
 
 LONG_SETS = [b"#;!%", b"!%/*|~^;#", b"!%/*|~^&@;#", b"##", b";#;"]
+# sets without the usual characters, or with only one of them
+OTHER_SETS = [b"%", b"#%", b"!", b"!#", b"%;"]
 
 
 def comment_text(rng, g):
@@ -29,7 +31,7 @@ def comment_text(rng, g):
 def make(rng, sid):
     delim = rng.choice(docs.DELIMS)
     # besides the usual one- and two-character sets: long sets (the usual characters last), sets naming a character twice
-    comment = rng.choice(docs.COMMENTS + docs.COMMENTS + LONG_SETS)
+    comment = rng.choice(docs.COMMENTS + docs.COMMENTS + LONG_SETS + OTHER_SETS)
     g = gen_doc.Gen(rng, delim, comment, single_line=True)
     items = g.document(rng.choice([2, 6, 12, 25]))
     # a fifth of the documents are read in python style (PYTHON_STYLE=1: indentation continues a value); there every entry and
